@@ -341,6 +341,13 @@ def run(ctx: Ctx) -> None:
                             "signatures in two processes (and {1: v} collides with {'1': v})"], stmt_key(c), what="the text form of an arbitrary value is hashed")
     rep.floor("C03.R6", n6, 2)
 
+    # ---- R9: pinned encodings ----------------------------------------------------------------------------------------
+    from .c05 import pinned_preimages
+    rep.rule("C03.R9", "signatures of a pinned table of values stay byte-identical: abstract evaluation of dds_hash gives, for each value, the bytes pinned in "
+                       "ddsverif/pinned_hashes.py (boundaries of the integer encodings, floats, booleans, text, None, sequences, mappings)")
+    n9 = pinned_preimages(ctx, "C03.R9")
+    rep.floor("C03.R9", n9, 25)
+
     # ---- R5: argument values are hashed from their own content only ----------------------------------------------
     from .c05 import hasher, all_branches, dataclass_field_source
     rep.rule("C03.R5", "the value hasher takes the components of a dataclass from dataclasses.fields(): no class-level state (ClassVar pseudo-fields, "
